@@ -10,7 +10,7 @@
 All tensors are small (N<=2, C<=4, spatial<=6, kernel<=3); float data is small-integer valued so that both runtimes are
 exact on the sample.  Every host draws a `strict` flag (about half of the cases): in strict mode the parameters that the
 rule's side condition forbids (near-miss classes) are not drawn, so that the rule fires often; all other parameters vary
-in both modes.
+in both modes (tag "planted:<host>:strict").
 
 Host-validity guard: onnx.reference (used by g.emit to evaluate the sample) computes the auto_pad padding of spatial dim i
 from X.shape[i] instead of X.shape[i+2], applies that SAME padding also for auto_pad=VALID, and does not clamp negative
@@ -322,6 +322,8 @@ def _pad_conv(g, integer):
     tag = "pad_convint" if integer else "pad_conv"
     g.features.add(f"planted:{tag}")
     strict = g.chance(5)
+    if strict:
+        g.features.add(f"planted:{tag}:strict")
     if g.chance(2):
         g.set_opset(g.pick([11, 12, 12] if integer else [10, 10, 11, 12]))
     nd = g.pick([1, 2, 2, 2, 3])
@@ -493,6 +495,8 @@ def _autopad(g, integer):
     tag = "autopad_int" if integer else "autopad"
     g.features.add(f"planted:{tag}")
     strict = g.chance(5)
+    if strict:
+        g.features.add(f"planted:{tag}:strict")
     nd = g.pick([1, 2, 2, 2, 3])
     N = g.pick([1, 2])
     C, group, M = _channels(g)
@@ -611,7 +615,9 @@ def _wb(g, dtype, wshape, M, tag, strict):
 def host_affine_conv(g):
     tag = "affine_conv"
     g.features.add(f"planted:{tag}")
-    strict = g.chance(6)
+    strict = g.chance(7)
+    if strict:
+        g.features.add(f"planted:{tag}:strict")
     nd = _opt(g, strict, [2, 2, 2, 2, 2, 2], [1, 3])
     dtype = F32 if g.chance(9) else F64
     N = g.pick([1, 2])
@@ -663,6 +669,8 @@ def host_conv_affine(g):
     tag = "conv_affine"
     g.features.add(f"planted:{tag}")
     strict = g.chance(6)
+    if strict:
+        g.features.add(f"planted:{tag}:strict")
     nd = g.pick([1, 2, 2, 2, 3])
     dtype = F32 if g.chance(9) else F64
     N = g.pick([1, 2])
@@ -767,6 +775,8 @@ def host_bn_conv(g):
     tag = "bn_conv"
     g.features.add(f"planted:{tag}")
     strict = g.chance(5)
+    if strict:
+        g.features.add(f"planted:{tag}:strict")
     nd = g.pick([1, 2, 2, 2, 3])
     N = g.pick([1, 2])
     C, group, M = _channels(g)
@@ -849,6 +859,8 @@ def host_bn_conv_transpose(g):
     tag = "bn_convT"
     g.features.add(f"planted:{tag}")
     strict = g.chance(5)
+    if strict:
+        g.features.add(f"planted:{tag}:strict")
     nd = g.pick([1, 2, 2, 2, 3])
     N = g.pick([1, 2])
     sp = [g.pick([2, 3, 4]) for _ in range(nd)]
